@@ -30,6 +30,7 @@ func checkC20(c *Ctx) {
 		bareForeignTypeNames(c, "R20j", []RootInfo{*ri})
 	}
 	c20ExampleCollector(c)
+	c20NoShadowedLocals(c)
 	r.Rule("R20d", "example values and table keys are printed quoted", 1)
 	r.Rule("R20e", "example table keys and selector lookup keys have the same format", 1)
 	r.Rule("R20f", "file-independent package-level names in per-file units", 1)
@@ -393,4 +394,82 @@ func c20ExampleCollector(c *Ctx) {
 	}
 	r.Check(early == "" && topLevel, "R20k", "collectMessageFieldExamples reaches its loop over the nested messages on every path", pos,
 		fmt.Sprintf("collectMessageFieldExamples can return (at %s) before it has visited message.Messages (loop at top level: %v): the examples of messages nested in such a message are missing from the emitted table, and the mock answers with the built-in placeholder values instead of the declared examples", early, topLevel))
+}
+
+// c20NoShadowedLocals: R20l — the mock emitter is recursive (a message inside a map inside a message …) and refers
+// to what it is filling by NAME (resp.F["k"].G …). A fixed-name local declared by the emitted code (`entry := …`)
+// is re-declared by the nested expansion of the same emitter; a statement of the outer expansion that is printed
+// after the inner one then refers to the inner variable. In every variant of the mock unit no `:=` inside a
+// nested block re-declares a name of an enclosing block of the same function (err excepted).
+func c20NoShadowedLocals(c *Ctx) {
+	r := c.R
+	r.Rule("R20l", "locals declared by the emitted mock code are never re-declared in a nested block (the recursive emitter addresses values by name)", 1)
+	ri := c.Root(pkgHTTP, "_http_mock.pb.go")
+	if ri == nil {
+		r.Unres("R20l", "_http_mock.pb.go", "", "unit root not found")
+		return
+	}
+	ex := c.ExploreDeep(ri.Fn, 1, 6000)
+	nFuncs := 0
+	bad := map[string]string{}
+	for _, v := range ex.Variants {
+		for _, u := range v.Units {
+			fset, f, err := ParseUnit(u)
+			if err != nil {
+				continue
+			}
+			for _, d := range f.Decls {
+				fd, ok := d.(*ast.FuncDecl)
+				if !ok || fd.Body == nil {
+					continue
+				}
+				nFuncs++
+				var walk func(b *ast.BlockStmt, outer map[string]bool)
+				walk = func(b *ast.BlockStmt, outer map[string]bool) {
+					declared := map[string]bool{}
+					for k := range outer {
+						declared[k] = true
+					}
+					own := map[string]bool{}
+					for _, st := range b.List {
+						if as, ok := st.(*ast.AssignStmt); ok && as.Tok == token.DEFINE {
+							for _, l := range as.Lhs {
+								if id, ok := l.(*ast.Ident); ok && id.Name != "_" && id.Name != "err" {
+									if outer[id.Name] && !own[id.Name] {
+										line := fset.Position(id.Pos()).Line
+										pos := ""
+										if line >= 1 && line <= len(u.Lines) {
+											pos = c.P.Pos(u.Lines[line-1].Pos)
+										}
+										bad["the emitted mock re-declares the local `"+id.Name+"` inside a block nested in the block that declared it"] = pos
+									}
+									own[id.Name] = true
+									declared[id.Name] = true
+								}
+							}
+						}
+						ast.Inspect(st, func(n ast.Node) bool {
+							switch x := n.(type) {
+							case *ast.FuncLit:
+								return false
+							case *ast.BlockStmt:
+								walk(x, declared)
+								return false
+							}
+							return true
+						})
+					}
+				}
+				walk(fd.Body, map[string]bool{})
+			}
+		}
+	}
+	for _, k := range sortedKeys(bad) {
+		r.Bad("R20l", k, bad[k], "the mock emitter expands nested messages recursively and addresses the value it fills by name; a fixed-name local of the emitted code is re-declared by the nested expansion, so the outer expansion's later statements refer to the wrong variable: for a map of messages whose value has a map of messages the mock file does not compile", nil)
+	}
+	if nFuncs == 0 {
+		r.Undec("R20l", "functions of the mock unit", "", "no function parsed in any variant")
+		return
+	}
+	r.OKd("R20l", "no local of the emitted mock code is re-declared in a nested block", "", map[string]any{"functions": nFuncs, "violations": len(bad)})
 }
